@@ -157,6 +157,28 @@ def check_C14(chk, tier, seed):
             # look the changed copy up first, then the other one (a structure shared between the copies would show)
             for did in [tgt] + [x for x in mm if x != tgt]:
                 lines.append(queries(r, mm[did], did, nops))
+    # the library's process-wide DEFAULT_DICT is public and mutable; what a program does to it must not show in dictionaries
+    # created afterwards from documents (the built-in document included): a dictionary is what was loaded into IT
+    bx = builtin_xml(core.REPO)
+    bm = MapModel()
+    bm.load(xml_apps(bx))
+    lines.append(("D", "DGLOBAL " + add_toks(dict(code=59999, vendor=None, name=b"Glob-Only", ty="u32", m=True)), None))
+    lines.append(("D", "DGLOBAL " + add_toks(dict(code=264, vendor=None, name=b"Hijacked", ty="u32", m=False)), None))
+    for j, extra in enumerate([[], [add_toks(dict(code=59998, vendor=None, name=b"Own", ty="utf", m=False))]]):
+        did = f"gb{j}"
+        lines.append(("D", dict_line(did, [load_toks(bx)] + extra), None))
+        mm2 = copy.deepcopy(bm)
+        if extra:
+            mm2.add(dict(code=59998, vendor=None, name=b"Own", ty="utf", m=False))
+        qs, want = [], []
+        for (c, v) in [(59999, None), (264, None), (59998, None), (263, None), (268, None)]:
+            qs.append(f"AVP {hx(c)} {opt(v)}")
+            d = mm2.avps.get((c, v))
+            want.append(("avp", fmt_def(d) if d else "none"))
+        for n in (b"Glob-Only", b"Hijacked", b"Origin-Host", b"Own", b"Session-Id"):
+            qs.append(f"NAME {xb(n)}")
+            want.append(("name", sorted(fmt_def(d) for d in mm2.avps.values() if d["name"] == n)))
+        lines.append(("Q", f"Q {did} {len(qs)} " + " ".join(qs), (want, 2, len(mm2.avps))))
     cases = [l[1] for l in lines]
     # dictionaries are per-process state: keep each history in one shard by running unsharded batches
     impl = core.run_sharded([eng.harness, "codec"], eng.prelude, cases, shards=1, timeout=1800)
@@ -218,6 +240,17 @@ def one_avp_frame(code, vendor, data):
     return bytes([1]) + gen.be(20 + len(body), 3) + bytes([0x80]) + gen.be(272, 3) + gen.be(4, 4) + gen.be(1, 4) + gen.be(2, 4) + body
 
 
+def nested_avp_frame(gcode, gvendor, code, vendor, data):
+    """one message holding one Grouped AVP (gcode, gvendor) whose only member is (code, vendor, data)"""
+    h = 12 if vendor is not None else 8
+    ln = h + len(data)
+    member = gen.be(code, 4) + bytes([0x80 if vendor is not None else 0]) + gen.be(ln, 3) + (gen.be(vendor, 4) if vendor is not None else b"") + data
+    member += b"\0" * ((4 - ln % 4) % 4)
+    gh = 12 if gvendor is not None else 8
+    body = gen.be(gcode, 4) + bytes([0x80 if gvendor is not None else 0]) + gen.be(gh + len(member), 3) + (gen.be(gvendor, 4) if gvendor is not None else b"") + member
+    return bytes([1]) + gen.be(20 + len(body), 3) + bytes([0x80]) + gen.be(272, 3) + gen.be(4, 4) + gen.be(1, 4) + gen.be(2, 4) + body
+
+
 SAMPLE_DATA = {"addr": b"\0\1\x7f\0\0\1", "ip4": b"\1\2\3\4", "ip6": bytes(range(16)), "id": b"host.example", "uri": b"aaa://h", "en": b"\0\0\0\5",
                "f32": b"\x3f\x80\0\0", "f64": b"\x3f\xf0\0\0\0\0\0\0", "grp": b"", "i32": b"\xff\xff\xff\xfe", "i64": b"\xff" * 8, "oct": b"\0\1\2",
                "time": b"\xe9\x3b\x6c\x5e", "u32": b"\0\0\1\0", "u64": b"\0" * 7 + b"\1", "utf": "hé".encode()}
@@ -269,6 +302,49 @@ def check_C15(chk, tier, seed):
                 data = SAMPLE_DATA[ty or "u32"]
                 cases.append(f"X {did} {xb(one_avp_frame(5000, wire_v, data))}")
                 expect.append(("scope", ty, f"{TY_XML_NAME[ta]}/{TY_XML_NAME[tb]} twins", (sa, sb), wire_v))
+    # the same scoping one level down: the member of a Grouped AVP is typed by the entry of ITS OWN (code, vendor) - the vendor
+    # of the enclosing group lends it nothing
+    for ty in ("u32", "utf", "grp", "ip4"):
+        for scope in (None, 10415, 77):
+            did = f"t{k}"
+            k += 1
+            apps = [dict(name=b"GenApp", id=4, cmds=[], avps=[dict(code=5000, vendor=scope, name=b"Probe", tyname=TY_XML_NAME[ty].encode(), must=None),
+                                                                 dict(code=6000, vendor=None, name=b"Box", tyname=b"Grouped", must=None),
+                                                                 dict(code=6000, vendor=10415, name=b"Box-V", tyname=b"Grouped", must=None),
+                                                                 dict(code=6000, vendor=77, name=b"Box-W", tyname=b"Grouped", must=None)])]
+            prelude.append(dict_line(did, [load_toks(gen_xml(apps), apps)]))
+            for gv in (None, 10415, 77):
+                for wire_v in (None, 10415, 77):
+                    cases.append(f"X {did} {xb(nested_avp_frame(6000, gv, 5000, wire_v, SAMPLE_DATA[ty]))}")
+                    expect.append(("nested", ty if scope == wire_v else None, TY_XML_NAME[ty] + f" inside a group of vendor {gv}", scope, wire_v))
+    # a dictionary that is used and THEN extended in place: after every extension a wire AVP is typed by the entry its pair has
+    # now (a new pair is known, a re-declared pair has its new type), whatever was decoded under the dictionary before
+    grow_cases, grow_expect = [], []
+    for rnd, (t0, t1) in enumerate([("u32", "utf"), ("utf", "u64"), ("oct", "grp"), ("en", "ip4")]):
+        did = f"grow{rnd}"
+        d0 = dict(code=5000, vendor=None, name=b"Probe", ty=t0, m=False)
+        grow_cases.append(dict_line(did, [add_toks(d0)]))
+        grow_expect.append(("ctl",))
+        grow_cases.append(f"X {did} {xb(one_avp_frame(5000, None, SAMPLE_DATA[t0]))}")
+        grow_expect.append(("scope", t0, TY_XML_NAME[t0], None, None))
+        grow_cases.append(f"X {did} {xb(one_avp_frame(5001, None, SAMPLE_DATA[t1]))}")
+        grow_expect.append(("scope", None, "not yet declared", None, None))
+        grow_cases.append(f"DADD {did} {add_toks(dict(code=5001, vendor=None, name=b'Probe-New', ty=t1, m=True))}")
+        grow_expect.append(("ctl",))
+        grow_cases.append(f"X {did} {xb(one_avp_frame(5001, None, SAMPLE_DATA[t1]))}")
+        grow_expect.append(("scope", t1, TY_XML_NAME[t1] + " declared after the dictionary was first used", None, None))
+        grow_cases.append(f"DADD {did} {add_toks(dict(code=5000, vendor=None, name=b'Probe', ty=t1, m=False))}")
+        grow_expect.append(("ctl",))
+        grow_cases.append(f"X {did} {xb(one_avp_frame(5000, None, SAMPLE_DATA[t1]))}")
+        grow_expect.append(("scope", t1, TY_XML_NAME[t0] + " re-declared as " + TY_XML_NAME[t1] + " after the dictionary was first used", None, None))
+        grow_cases.append(f"DFORK {did} {did}c")
+        grow_expect.append(("ctl",))
+        grow_cases.append(f"DADD {did}c {add_toks(dict(code=5002, vendor=None, name=b'Probe-Clone', ty=t0, m=False))}")
+        grow_expect.append(("ctl",))
+        grow_cases.append(f"X {did}c {xb(one_avp_frame(5002, None, SAMPLE_DATA[t0]))}")
+        grow_expect.append(("scope", t0, TY_XML_NAME[t0] + " declared in a clone of a used dictionary", None, None))
+        grow_cases.append(f"X {did} {xb(one_avp_frame(5002, None, SAMPLE_DATA[t0]))}")
+        grow_expect.append(("scope", None, "declared in the clone only", None, None))
     # two definitions carrying the SAME NAME under different keys, with different types (same document, or the second added
     # later with add_avp): a wire AVP is typed by the entry of its own (code, vendor), whatever other entry shares its name
     for (ta, tb) in pairs + [("utf", "u32"), ("u64", "oct")]:
@@ -349,6 +425,8 @@ def check_C15(chk, tier, seed):
                     line = hist_line(did, ("NEW", 272, 4, 0x80, 1, 2), [("ADDNAME", d["name"], ("L", leaf))])
                     cases.append(line)
                     expect.append(("build", d, leaf))
+    cases += grow_cases
+    expect += grow_expect
     eng.prelude = prelude
     impl, model = eng.run(cases, shards=1)
     stage2, s2idx = [], []
@@ -367,7 +445,11 @@ def check_C15(chk, tier, seed):
         if im.startswith("PANIC") or im.startswith("CRASH"):
             chk.violation("crash: " + short(im, 200), dict(case=c, impl=short(im)))
             continue
-        if ex[0] == "scope":
+        if ex[0] == "ctl":
+            if im != "OK":
+                chk.violation("a dictionary could not be created / extended: " + short(im, 200), dict(case=c, impl=short(im)))
+            continue
+        if ex[0] in ("scope", "nested"):
             _, ty, tyname, scope, wire_v = ex
             want_ok = ty is not None and ty != "unk"
             if im.startswith("OK ") != want_ok:
@@ -377,6 +459,8 @@ def check_C15(chk, tier, seed):
                               dict(case=c, impl=short(im, 1000)))
             elif want_ok:
                 a = parse_result(im)["msg"]["avps"][0]
+                if ex[0] == "nested":
+                    a = a["val"][1][0]
                 kind = KIND_TY.get(a["val"][1]) if a["val"][0] == "L" else "grp"
                 if kind != ty:
                     ok = False
@@ -509,6 +593,15 @@ def check_C16(chk, tier, seed):
                ("L", gen.gen_leaf(r)) if r.chance(2, 3) else ("GN", []))
         cases.append(hist_line(did, start, ops[:pos] + [bad] + ops[pos:]))
         expect.append(("unknown", hist_line(did, start, ops), pos, did))
+        if i % 3 == 0:
+            # the same unknown name asked for AGAIN (right away / after the next good call), after a by-name call that succeeded
+            live = [d for d in eng.dicts[did].live() if eng.dicts[did].name_unique(d["name"]) and d["ty"] not in ("grp", "unk")]
+            if live:
+                d = r.choice(live)
+                good = ("ADDNAME", d["name"], ("L", SAMPLE_LEAF[d["ty"]]))
+                gap = ops[pos:pos + (i // 3) % 2]
+                cases.append(hist_line(did, start, ops[:pos] + [good, bad, bad] + gap + [bad] + ops[pos + len(gap):]))
+                expect.append(("unknown3", hist_line(did, start, ops[:pos] + [good] + gap + ops[pos + len(gap):]), (pos + 1, pos + 2, pos + 3 + len(gap)), did))
     impl, model = eng.run(cases, shards=1)
     ref_lines, ref_idx = [], []
     for i, ex in enumerate(expect):
@@ -565,7 +658,12 @@ def check_C16(chk, tier, seed):
             st = im.split()[2]
             rst = ref.split()[2]
             rst = "" if rst == "-" else rst
-            want_st = rst[:pos] + "0" + rst[pos:]
+            if ex[0] == "unknown3":
+                want_st = rst
+                for q in pos:
+                    want_st = want_st[:q] + "0" + want_st[q:]
+            else:
+                want_st = rst[:pos] + "0" + rst[pos:]
             rest_i = im.split(" ", 3)[3]
             rest_r = ref.split(" ", 3)[3]
             if st != want_st:
